@@ -246,6 +246,10 @@ def check(an, rep, tier):
         rep.add('R-draw-local', fn_.qualname, model.norm_src(mod_, call.func),
                 'ok' if pv in ('seeded', 'param', 'self') else 'violation',
                 'receiver %s (%s)' % (txt, pv))
+    from .. import rules_proto as _RP
+    _callers = {f.qualname for f in prog.all_functions()
+                if f.module.name in ('anova', 'anova_func')}
+    _RP.check_param_forwarding(prog, rep, callers=_callers)
     rep.floor('T-pattern', 3, 'core patterns')
     rep.floor('S-ret', 4, 'results')
     rep.floor('P-order', 3, 'build order')
